@@ -260,3 +260,55 @@ Proof.
   split; [reflexivity|]. split; [|split; reflexivity].
   apply measurement_shapes_defined. discriminate.
 Qed.
+
+(* ================= ProcessorSampler.run_batch with jobs_per_batch (model: Codec/BatchedSampler.v) ================= *)
+From VF Require Import Codec.BatchedSampler Codec.BatchedSamplerProofs.
+
+(* however the batch is cut into API calls, run_batch returns what one call per program returns ... *)
+Theorem C18_run_batch_jobs_is_run_batch : forall (Prog Sweep Res : Type) (sweep_eqb : Sweep -> Sweep -> bool)
+  (run_sweep : Prog -> Sweep -> nat -> list Res),
+  (forall a b, sweep_eqb a b = true -> a = b) ->
+  forall points : Sweep -> nat, (forall p s r, length (run_sweep p s r) = points s) ->
+  forall jpb none programs params reps,
+  run_batch_jobs sweep_eqb run_sweep jpb none programs params reps = run_batch run_sweep none programs params reps.
+Proof. exact @run_batch_jobs_is_run_batch. Qed.
+Print Assumptions C18_run_batch_jobs_is_run_batch.
+
+(* ... that is: the results of programs[i], run with its own sweep and repetition count, at position i *)
+Theorem C18_run_batch_jobs_spec : forall (Prog Sweep Res : Type) (sweep_eqb : Sweep -> Sweep -> bool)
+  (run_sweep : Prog -> Sweep -> nat -> list Res),
+  (forall a b, sweep_eqb a b = true -> a = b) ->
+  forall points : Sweep -> nat, (forall p s r, length (run_sweep p s r) = points s) ->
+  forall jpb none programs params reps out dp ds,
+  run_batch_jobs sweep_eqb run_sweep jpb none programs params reps = Some out ->
+  length out = length programs /\
+  exists ps rs, normalize_batch_args (length programs) none params reps = Some (ps, rs) /\
+    forall i, (i < length programs)%nat ->
+      nth i out [] = run_sweep (nth i programs dp) (nth i ps ds) (nth i rs 0%nat).
+Proof. exact @run_batch_jobs_spec. Qed.
+Print Assumptions C18_run_batch_jobs_spec.
+
+(* the API calls: never empty, never more than jobs_per_batch programs, together the programs in the order given *)
+Theorem C18_batches_shape : forall (Prog Sweep : Type) (sweep_eqb : Sweep -> Sweep -> bool) jpb
+  (items : list (Prog * Sweep * nat)),
+  Forall (fun j : job => fst (fst j) <> [] /\ (length (fst (fst j)) <= Nat.max 1 jpb)%nat) (batches sweep_eqb jpb items) /\
+  concat (map (fun j : job => fst (fst j)) (batches sweep_eqb jpb items)) = map (fun cpr => fst (fst cpr)) items.
+Proof. exact @batches_shape. Qed.
+Print Assumptions C18_batches_shape.
+
+(* non-vacuity: a sweep is its number of points; programs 10 and 30 share their settings, 20 between them does not *)
+Definition C18_ex_rs (c p r : nat) : list (nat * nat * nat) := map (fun j => (c, j, r)) (seq 0 p).
+Example C18_batched_example :
+  (forall a b, Nat.eqb a b = true -> a = b) /\
+  (forall p s r, length (C18_ex_rs p s r) = (fun s : nat => s) s) /\
+  batches Nat.eqb 2 [(10, 2, 5); (20, 2, 7); (30, 2, 5); (40, 2, 5); (50, 2, 5); (60, 1, 5)]%nat
+    = [([10], 2, 5); ([20], 2, 7); ([30; 40], 2, 5); ([50], 2, 5); ([60], 1, 5)]%nat /\
+  run_batch_jobs Nat.eqb C18_ex_rs 2 1%nat [10; 20; 30]%nat (Some [2; 2; 2]%nat) (inr [5; 7; 5]%nat)
+    = Some [[(10, 0, 5); (10, 1, 5)]; [(20, 0, 7); (20, 1, 7)]; [(30, 0, 5); (30, 1, 5)]]%nat /\
+  run_batch_jobs Nat.eqb C18_ex_rs 3 1%nat [10; 20; 30]%nat None (inl 4%nat)
+    = Some [[(10, 0, 4)]; [(20, 0, 4)]; [(30, 0, 4)]]%nat.
+Proof.
+  split; [intros a b H; apply Nat.eqb_eq; exact H|].
+  split; [intros p s r; unfold C18_ex_rs; rewrite map_length, seq_length; reflexivity|].
+  repeat split; reflexivity.
+Qed.
